@@ -107,6 +107,8 @@ def run_job(job):
             if r.status != 0:
                 if any(m in err for m in ALLOC_ERR):
                     viol("C23", "size-accounting", "graph/alloc-error", err[-400:])
+                    viol("C05", "link-failed", "graph/link-failed-alloc",
+                         f"status {r.status}: {err[-400:]}")
                 else:
                     viol("C05", "link-failed", "graph/link-failed",
                          f"status {r.status}: {err[-400:]}")
